@@ -146,6 +146,40 @@ def load(config="default"):
     return F
 
 
+def canon_path(p):
+    """def path with generic argument lists removed (renaming a type parameter must not move an anchor):
+    `Verifier::<G, T>::verify` -> `Verifier::verify`; `<X<G> as Tr<G>>::m` -> `<X as Tr>::m`"""
+    out = []
+    i, n = 0, len(p)
+    while i < n:
+        c = p[i]
+        if c == "<":
+            prev = p[i - 1] if i > 0 else ""
+            qualified = (i == 0) or prev in " (,<&["
+            if qualified:
+                out.append(c)
+                i += 1
+                continue
+            # generic argument list (also after `::`): skip to the matching '>'
+            depth = 0
+            j = i
+            while j < n:
+                if p[j] == "<":
+                    depth += 1
+                elif p[j] == ">" and not (j > 0 and p[j - 1] == "-"):
+                    depth -= 1
+                    if depth == 0:
+                        break
+                j += 1
+            if out and "".join(out).endswith("::"):
+                del out[-2:]
+            i = j + 1
+            continue
+        out.append(c)
+        i += 1
+    return "".join(out)
+
+
 class Facts:
     def __init__(self, d, config, path, fresh):
         self.d = d
@@ -158,15 +192,32 @@ class Facts:
         self.moduli = d["moduli"]
         self.items = d["items"]
         self.adts = {a["path"]: a for a in d["items"]["adts"]}
+        self._canon = {}
+        for p in self.fns:
+            self._canon.setdefault(canon_path(p), []).append(p)
+        self._canon_mir = {}
+        for p in self.mir:
+            self._canon_mir.setdefault(canon_path(p), []).append(p)
+
+    def resolve(self, path):
+        """actual def path for an anchor written with this repository's generic parameter names"""
+        if path in self.fns:
+            return path
+        c = self._canon.get(canon_path(path), [])
+        if len(c) == 1:
+            return c[0]
+        raise AnchorMissing(path)
 
     def fn(self, path):
-        """Fetch a function by exact def path; anchor-missing is a hard failure."""
-        if path not in self.fns:
-            raise AnchorMissing(path)
-        return self.fns[path]
+        """Fetch a function by def path (generic parameter names are not significant); anchor-missing is a hard failure."""
+        return self.fns[self.resolve(path)]
 
     def find_fns(self, suffix):
         return [p for p in self.fns if p.endswith(suffix)]
+
+
+def same_fn(a, b):
+    return a == b or canon_path(a or "") == canon_path(b or "")
 
 
 class AnchorMissing(Exception):
